@@ -1137,6 +1137,13 @@ func (p *partition) handleReplicationResponse(msg *nats.Msg) int {
 	}
 	offsets, err := p.log.AppendMessageSet(data)
 	if err != nil {
+		if cause := errors.Cause(err); cause == commitlog.ErrSegmentClosed || cause == commitlog.ErrCommitLogClosed {
+			// The partition is being closed or paused: the log is closed
+			// before the replication loop is stopped, so a response that
+			// arrives in between finds it closed. Nothing was appended and
+			// nothing is wrong with the data.
+			return 0
+		}
 		panic(fmt.Errorf("Failed to replicate data to log %s: %v", p, err))
 	}
 	adoptHW()
